@@ -253,6 +253,9 @@ def conclude(prop, mod, tier, seed, m, wall, write=True):
     if rc == 2:
         for r in inconclusive[:10]:
             print(f"INCONCLUSIVE property={prop} {r[:600]}")
+    elif inconclusive:
+        for r in inconclusive[:10]:
+            print(f"NOTE (would be inconclusive) {r[:1500]}")
     top = ", ".join(f"{k}={v}" for k, v in sorted(counters.items())[:60])
     print(f"{prop} {tier} seed={seed}: {verdict}; evaluations={evaluations} distinct_nontrivial={m['nt']} wall={wall:.1f}s")
     print(f"  observed: {top}")
